@@ -187,13 +187,21 @@ func (o *objectImpl) SetProperty(name value.Value, newValue value.Value) error {
 	if err != nil {
 		return err
 	}
-	err = o.saveProperty(nameStr, newValue)
-	if err != nil {
-		return err
-	}
+	// the value must have the declared type of the property: check it
+	// before anything is stored (PropertyID alone falls back to the
+	// name when the signature does not match).
 	id, err := o.meta.PropertyID(nameStr, newValue.Signature())
 	if err != nil {
 		return fmt.Errorf("cannot set property: %s", err)
+	}
+	declared := o.meta.Properties[id].Signature
+	if declared != sig && declared != "("+sig+")" && "("+declared+")" != sig {
+		return fmt.Errorf("cannot set property %s: wrong type %s, expecting %s",
+			nameStr, sig, declared)
+	}
+	err = o.saveProperty(nameStr, newValue)
+	if err != nil {
+		return err
 	}
 	return o.signalHandler.UpdateProperty(id, sig, data)
 }
